@@ -232,10 +232,13 @@ def emit_unit(unit, outdir):
     needed = [unit.pre, unit.post] + unit.needs
     for (g, gpre, gpost) in unit.replace:
         ex.require_mangled(g)
-        if gpre != 'UF':
+        if not gpre.startswith('UF'):
             needed += [gpre, gpost]
-        elif gpost:
-            needed += [gpost]
+        else:
+            if gpost:
+                needed += [gpost]
+            if gpre.startswith('UF:'):
+                needed += [gpre[3:]]
     for p in needed:
         if p:
             ex.require_mangled(p)
@@ -259,11 +262,14 @@ def emit_unit(unit, outdir):
     uf_abstracted = []
     for (g, gpre, gpost) in unit.replace:
         gcn = X.cname_of(g)
-        if gpre == 'UF':
+        if gpre.startswith('UF'):
             decl, ctxt = uf_contract_text(ex.funcs[gcn], gcn)
             prelude += decl + '\n'
-            if gpost:   # ... that additionally satisfies the function's own (proved) postcondition
-                ctxt = contract_text(ex.funcs[gcn], None, gpost).replace('__CPROVER_assigns()', '').strip() + '\n' + ctxt
+            if gpost:   # ... that additionally satisfies the function's own (proved) postcondition on its domain
+                names = [n_ for n_, t_ in ex.funcs[gcn]['params']]
+                post_call = '%s(%s)' % (gpost, ', '.join(names + ['__CPROVER_return_value']))
+                guard = '!%s(%s) || ' % (gpre[3:], ', '.join(names)) if gpre.startswith('UF:') else ''
+                ctxt = '__CPROVER_ensures(%s%s)\n' % (guard, post_call) + ctxt
             ex.contracts[gcn] = ctxt
             uf_abstracted.append(ex.funcs[gcn]['qual'] + '::' + (ex.funcs[gcn]['name'] or ''))
         else:
